@@ -1152,6 +1152,11 @@ def lean_text(g):
                "that statically (transitively) import `a`; in %d chunks -/" % NCH)
     out.append("def pairChunks : List (List (Mod × List Mod)) := %s" % L(
         L("(%d, %s)" % (nid[a], L(str(nid[x]) for x in ms)) for a, ms in prs[c::NCH]) for c in range(NCH)))
+    # two more total orders of the domain (for the sweep theorems): by a hash of the name, and by the reversed name
+    o1 = sorted(g["domain"], key=lambda m: hashlib.sha1(m.encode()).hexdigest())
+    o2 = sorted(g["domain"], key=lambda m: m[::-1])
+    out.append("/-- two further total orders of the domain: by the sha1 of the name, by the reversed name -/")
+    out.append("def sweepOrders : List (List Mod) := %s" % L(L(str(nid[m]) for m in o) for o in (o1, o2)))
     out.append("/-- the top-level package of the tree under test -/")
     out.append("def root : Mod := %d" % nid["ioflo"])
     out.append("namespace Mid")
